@@ -145,8 +145,17 @@ func runHist(res *vh.Result, prop string) {
 		res.Rule += "; plus concurrent histories (4 query clients, 2 notification producers, 1 multicast producer on the full stack) whose recorded call/return/value " +
 			"triples are checked for linearizability against a per-URR fetch-and-increment model (porcupine)"
 	}
+	if prop == "C08" {
+		nconc = vh.Tiered(16, 600) // requests that go unanswered although they carry rule IEs (c08_unanswered.go)
+		res.Rule += "; plus Session Modification Requests whose Node ID IE cannot be decoded, placed in front of, between and behind rule IEs: rejected or unanswered => " +
+			"no data-plane call and unchanged session, node and data-plane state"
+	}
 	res.Cases(total+nconc, func(i int, rng *vh.Rng) {
 		if i >= total {
+			if prop == "C08" {
+				c08Unanswered(res, i, rng)
+				return
+			}
 			c11Concurrent(res, i, rng)
 			return
 		}
